@@ -158,6 +158,22 @@ class SparselyBin(Factory, Container):
             out.bins[i] = Count.ed(v.entries)
         return out.specialize()
 
+    def _checkContent(self, other):
+        """Raise if the sub-aggregators of ``other`` could not be added to this container's.
+
+        Bins present on one side only are adopted without being added to anything, so their
+        type and structure have to be compared explicitly (using the value template, the first
+        bin, or at least the declared content type).
+        """
+        mine = self.value if self.value is not None else next(iter(self.bins.values()), None)
+        theirs = other.value if other.value is not None else next(iter(other.bins.values()), None)
+        if mine is not None and theirs is not None:
+            mine + theirs  # raises ContainerException if they are incompatible
+        elif self.contentType != other.contentType:
+            raise ContainerException(
+                f"cannot add {self.name}s because content type differs ({self.contentType} vs {other.contentType})"
+            )
+
     @inheritdoc(Container)
     def zero(self):
         return SparselyBin(self.binWidth, self.quantity, self.value, self.nanflow.zero(), self.origin)
@@ -173,6 +189,7 @@ class SparselyBin(Factory, Container):
                 raise ContainerException(
                     f"cannot add SparselyBins because origin differs ({self.origin} vs {other.origin})"
                 )
+            self._checkContent(other)
 
             out = SparselyBin(
                 self.binWidth,
@@ -205,6 +222,7 @@ class SparselyBin(Factory, Container):
                 raise ContainerException(
                     f"cannot add SparselyBins because origin differs ({self.origin} vs {other.origin})"
                 )
+            self._checkContent(other)
             self.entries += other.entries
             for i, v in other.bins.items():
                 if i in self.bins:
